@@ -210,6 +210,7 @@ class FullWorld:
             from ..mbworld import pinned_urandom
             with pinned_urandom(self.dsides[x]):
                 kw = dict(getattr(self, "dilate_kwargs", {}))
+                kw.update(getattr(self, "dilate_kwargs_by_side", {}).get(x, {}))
                 if x in self.no_listen:
                     kw["no_listen"] = True
                 self.api[x] = self.cl[x].w.dilate(**kw)
